@@ -696,6 +696,9 @@ RULE = ("9 deterministic workflows (3-step chain, fan-out/fan-in with collect_ev
 from vmc.tables import _ROUND6 as _R6  # noqa: E402
 
 RULE += _R6["C13"]
+from vmc.tables import _ROUND7 as _R7  # noqa: E402
+
+RULE += _R7["C13"]
 
 
 
